@@ -15,6 +15,10 @@
 (*              "otherptr" a valid pointer for some other object           *)
 (* pull / checkout may only turn "pointer" and "missing" into "content"    *)
 (* (when the object is available); everything else is left byte-identical. *)
+(* fetch and pull take an include set and an exclude set of paths (-I / -X  *)
+(* or lfs.fetchinclude / lfs.fetchexclude; an empty include set selects     *)
+(* everything): only selected paths are fetched and materialised, the      *)
+(* others stay what they were.                                             *)
 (***************************************************************************)
 EXTENDS Repo
 
@@ -68,20 +72,25 @@ DropB(o) ==
   /\ UNCHANGED <<commits, br, rr, rt, head, local, server, everRemote, published, cloned, bref, bwt, bdone>>
   /\ Log([a |-> "dropb", oid |-> o])
 
-Fetched == [o \in Oids |-> IF o \in TreeOidsB /\ o \in server THEN "valid" ELSE bstore[o]]
+Selected(inc, exc) == {p \in Paths : (inc = {} \/ p \in inc) /\ p \notin exc}
+SelOids(sel) == {TreeB[p] : p \in sel} \cap Oids
+Fetched(sel) == [o \in Oids |-> IF o \in SelOids(sel) /\ o \in server THEN "valid" ELSE bstore[o]]
 \* a deleted file whose object is not available comes back as the pointer recorded for it
 \* (the acceptor also allows it to stay missing: neither touches anything of the user's)
-CheckedOut(st) == [p \in Paths |-> IF TreeB[p] \in Oids /\ bwt[p] \in {"pointer", "missing"} /\ st[TreeB[p]] = "valid"
+CheckedOut(st, sel) == [p \in Paths |-> IF p \notin sel THEN bwt[p]
+                                   ELSE IF TreeB[p] \in Oids /\ bwt[p] \in {"pointer", "missing"} /\ st[TreeB[p]] = "valid"
                                    THEN "content"
                                    ELSE IF TreeB[p] \in Oids /\ bwt[p] = "missing" THEN "pointer" ELSE bwt[p]]
 
-Cmd(kind) ==         \* kind \in {"fetch", "pull", "checkout"}: the verdict action, ends the behaviour
+Cmd(kind, inc, exc) ==         \* kind \in {"fetch", "pull", "checkout"}: the verdict action, ends the behaviour
   /\ cloned /\ ~bdone /\ bdone' = TRUE
-  /\ LET st == IF kind = "checkout" THEN bstore ELSE Fetched
-         wt == IF kind = "fetch" THEN bwt ELSE CheckedOut(st)
-         complete == \A o \in TreeOidsB : st[o] = "valid"
+  /\ (kind = "checkout" => inc = {} /\ exc = {})
+  /\ LET sel == Selected(inc, exc)
+         st == IF kind = "checkout" THEN bstore ELSE Fetched(sel)
+         wt == IF kind = "fetch" THEN bwt ELSE CheckedOut(st, sel)
+         complete == \A o \in SelOids(sel) : st[o] = "valid"
      IN /\ bstore' = st /\ bwt' = wt
-        /\ Log([a |-> kind, ok |-> complete, store |-> {o \in Oids : st[o] = "valid"}, wt |-> wt,
+        /\ Log([a |-> kind, inc |-> inc, exc |-> exc, ok |-> complete, store |-> {o \in Oids : st[o] = "valid"}, wt |-> wt,
                 tree |-> TreeB, wtBefore |-> bwt])
   /\ UNCHANGED <<commits, br, rr, rt, head, local, server, everRemote, published, cloned, bref>>
 
@@ -92,7 +101,7 @@ CNext == \/ \E b \in Branches, p \in Paths, blob \in Blobs, g \in Ages : CCommit
          \/ \E s \in BOOLEAN : CloneB(s)
          \/ \E p \in Paths, k \in {"edited", "missing", "otherptr"} : Perturb(p, k)
          \/ \E o \in Oids : DropB(o)
-         \/ \E k \in {"fetch", "pull", "checkout"} : Cmd(k)
+         \/ \E k \in {"fetch", "pull", "checkout"}, inc, exc \in SUBSET Paths : Cmd(k, inc, exc)
 CSpec == CInit /\ [][CNext]_cvars
 
 \* C04 on the design
